@@ -25,7 +25,7 @@ func TestSeed(t *testing.T) {
 	}
 	known := map[string]string{"search-miss/torn-tail-read-error": "x", "search-miss/file-starts-mid-record": "x", "intact-log-unreadable/err-length-too-big": "x"}
 	start := time.Now()
-	res := kernel.Execute(t, kernel.RigFor("C14"), tier, kernel.NewTape(seed), known)
+	res := kernel.Execute(t, Describe(), tier, kernel.NewTape(seed), known)
 	b, _ := json.MarshalIndent(res, "", " ")
 	t.Logf("wall %v\n%s", time.Since(start), b)
 }
